@@ -7,6 +7,7 @@ import (
 	"sort"
 	"strconv"
 	"strings"
+	"verifharness/internal/pool"
 
 	"time"
 
@@ -341,12 +342,82 @@ func checkC07(c *Ctx) {
 			}
 			c.Rep.Violation(j.Raw, desc)
 		})
+	c07Scenarios(c, p)
 	// Project.tla: workspaces analysed as a project (entry file + what it requires), both modes
 	projectRuns(c, p, 0, "diagnostics")
 	c.poolStats(p)
 	if surveyMode {
 		sv.dump()
 	}
+}
+
+// c07Scenarios: two situations outside the generated programs, each in plain and in project mode. (1) Two modules
+// with the same file name in different directories, each required by its neighbour under the same string: the globals
+// of both are defined, nothing may be reported undefined. (2) The only file that defines a global is deleted and the
+// deletion reported (a batch with nothing but the deletion): the reads of that global are undefined from then on.
+func c07Scenarios(c *Ctx, p *pool.Pool) {
+	type sc struct {
+		name  string
+		files map[string]string
+		steps []proto.Step
+		want  []string // "file:line" of the undefined reads at the end
+	}
+	var scs []sc
+	for _, project := range []bool{false, true} {
+		same := map[string]string{
+			"main.lua":       "require(\"net.client\")\nrequire(\"ui.panel\")\n",
+			"net/client.lua": "require(\"util\")\nprint(g_netutil)\n", "net/util.lua": "g_netutil = 1\n",
+			"ui/panel.lua": "require(\"util\")\nprint(g_uiutil)\n", "ui/util.lua": "g_uiutil = 2\n",
+		}
+		del := map[string]string{"main.lua": "require(\"def\")\nrequire(\"use\")\n", "def.lua": "gdel = 1\n", "use.lua": "print(gdel)\nprint(gdel)\n"}
+		tag := "plain"
+		if project {
+			tag = "project"
+			same["luahelper.json"] = `{"ShowWarnFlag":1,"ProjectFiles":["main.lua"]}`
+			del["luahelper.json"] = `{"ShowWarnFlag":1,"ProjectFiles":["main.lua"]}`
+		}
+		scs = append(scs, sc{"two modules under one require string, " + tag, same, []proto.Step{{M: "textDocument/hover", P: posParams("main.lua", 0, 1)}}, nil})
+		scs = append(scs, sc{"the defining file is deleted (deletion-only batch), " + tag, del,
+			[]proto.Step{{M: "fs.delete", Path: "def.lua"},
+				{M: "workspace/didChangeWatchedFiles", N: true, P: json.RawMessage(`{"changes":[{"uri":"file://$ROOT/def.lua","type":3}]}`)},
+				{M: "textDocument/hover", P: posParams("main.lua", 0, 1)}}, []string{"use.lua:0", "use.lua:1"}})
+	}
+	var groups [][]*proto.Case
+	for i, s := range scs {
+		groups = append(groups, []*proto.Case{{ID: i + 1, Files: s.files, Init: json.RawMessage(allOnLocal), Steps: s.steps}})
+	}
+	p.RunSlice(groups, func(pc *proto.Case, res *proto.Result) {
+		s := scs[pc.ID-1]
+		raw, _ := json.Marshal(map[string]interface{}{"fam": "c07-scenario", "name": s.name})
+		c.Rep.Eval("scenario:" + s.name)
+		if res.Crash != "" || res.Hang {
+			c.Rep.Violation(raw, fmt.Sprintf("%s: server died or hung (crash=%q)", s.name, res.Crash))
+			return
+		}
+		view := map[string][]diag{}
+		foldDiags(res.Root, view, res.InitNtfs)
+		for i := range res.Steps {
+			foldDiags(res.Root, view, res.Steps[i].Ntfs)
+		}
+		var got []string
+		for f, ds := range view {
+			for _, x := range ds {
+				if x.Type == 2 || x.Type == 3 {
+					got = append(got, fmt.Sprintf("%s:%d", f, x.SL))
+				}
+			}
+		}
+		sort.Strings(got)
+		if strings.Join(got, " ") != strings.Join(s.want, " ") {
+			desc := fmt.Sprintf("%s: reads reported undefined at {%s}, the unbound reads are at {%s}", s.name, strings.Join(got, " "), strings.Join(s.want, " "))
+			if surveyMode {
+				sv.add("scenario "+s.name, desc)
+				return
+			}
+			c.Rep.Violation(raw, desc)
+		}
+	})
+	c.Rep.Traces += int64(len(scs))
 }
 
 // ignData: one IgnoreLists.tla configuration.
